@@ -270,11 +270,15 @@ def run_matrix(case, st):
         tn = t if t != "TIME_OF_DAY" else "OCTET_STRING"
         want = codec.encode(tn, val)
         want_other = codec.encode(tn, other)
-        for source in ("default", "value", "value>default", "store>value", "callback>store", "callback-bytes"):
+        for source in ("default", "value", "value>default", "store>value", "callback>store", "callback-bytes",
+                       "callback-bytearray", "default-bytearray", "store-bytearray"):
+            if source.endswith("bytearray") and numeric:
+                continue
             for kind in ("var", "rec", "arr"):
                 if kind != "var" and source not in ("default", "store>value"):
                     continue
                 e = dict(index=0x2100, name="obj", type=t if t != "TIME_OF_DAY" else "OCTET_STRING")
+                live = None
                 if t == "TIME_OF_DAY":
                     e["type_code"] = 0x0C
                     e["type"] = "TIME_OF_DAY"
@@ -288,6 +292,9 @@ def run_matrix(case, st):
                     e["default"], e["value"] = other, val
                 elif source == "store>value":
                     e["default"], e["value"] = other, other
+                elif source == "default-bytearray":
+                    live = bytearray(want)
+                    e["default"] = live if t not in ("VISIBLE_STRING", "UNICODE_STRING") else val
                 else:
                     e["default"] = other
                 entries = [e]
@@ -304,6 +311,13 @@ def run_matrix(case, st):
                     sim.node.add_read_callback(lambda index, subindex, od, _v=val: _v)
                 if source == "callback-bytes":
                     sim.node.add_read_callback(lambda index, subindex, od, _v=want: _v)
+                if source == "callback-bytearray":
+                    live = bytearray(want)           # the application's own buffer, handed out on every read
+                    sim.node.add_read_callback(lambda index, subindex, od, _v=live: _v)
+                if source == "store-bytearray":
+                    live = bytearray(want)
+                    sim.node.data_store.setdefault(0x2100, {})[key[1]] = live
+                    sim.ref.store[key] = want
                 st.evaluations += 1
                 rc = dict(case, val=repr(val)[:60], source=source, kind=kind)
                 if not numeric:
@@ -321,11 +335,30 @@ def run_matrix(case, st):
                     continue
                 if len(want) > 4 or source not in ("default",):
                     st.nontrivial_n += 1
+                if source.endswith("bytearray"):
+                    # the supplier's object is the application's: serving it must not change it, and a second (and a
+                    # half-read, abandoned) upload must give the same bytes
+                    try:
+                        if len(want) > 7:
+                            sim.send_strict(bytes([0x40, 0x00, 0x21, key[1], 0, 0, 0, 0]))
+                            sim.send_strict(bytes([0x60]) + bytes(7))      # first segment only, then a new transfer
+                        got3 = sdo_client.upload(sim.send_strict, *key)
+                    except sdo_client.ProtocolViolation as ex:
+                        st.violation(f"C02:matrix:upload-again:{ex.kind}:{sigk}", rc, want.hex()[:80], str(ex))
+                        continue
+                    if live is not None and bytes(live) != want:
+                        st.violation(f"C02:matrix:supplier-object-modified:{sigk}", rc, want.hex()[:80], bytes(live).hex()[:80])
+                        continue
+                    if not isinstance(got3, bytes) or bytes(got3) != want:
+                        st.violation(f"C02:matrix:upload-again:data:{sigk}:len{_lenclass(len(want))}", rc, want.hex()[:80], repr(got3)[:120])
+                        continue
+                    st.outcome("matrix ok")
+                    continue
                 # downloads in three framings, then upload again and check the callback log
                 newv = bytes(reversed(want)) if len(set(want)) > 1 else bytes((b + 1) & 0xFF for b in want)
                 modes = (["exp"] if 1 <= len(newv) <= 4 else []) + ["seg_size", "seg_nosize", "seg_size:3"]
                 for mode in modes:
-                    if source in ("callback>store", "callback-bytes"):
+                    if source in ("callback>store", "callback-bytes", "callback-bytearray"):
                         break
                     seg_len = 3 if mode.endswith(":3") else 7
                     ncb = len(sim.cb_log)
